@@ -414,5 +414,20 @@ theorem band_share_close {lo hi p : FV} (hlo : Good lo) (hp : C12.Prob p) (hhi :
   rw [abs_lt]
   constructor <;> linarith [herr.1, herr.2]
 
+theorem rep_one : Rep 24 (-149) 1 := ⟨1, 0, by decide, by decide, by simp [pow2_zero]⟩
+
+theorem round_one : f32.round 1 = .fin 1 :=
+  Fmt.round_eq_self_of_rep f32 rep_one
+    (by have : pow2 0 < pow2 f32.emax := pow2_lt_pow2 (by decide); rwa [pow2_zero] at this)
+    (by have := pow2_pos f32.emax; linarith)
+
+theorem rep_unit (k : Nat) (hk : k < 2 ^ 23) : Rep 24 (-149) ((k : ℚ) / ((2 ^ 23 : Nat) : ℚ)) := by
+  refine ⟨k, -23, by decide, ?_, ?_⟩
+  · rw [abs_of_nonneg (by positivity)]
+    have : (k : Int) < 2 ^ 23 := by exact_mod_cast hk
+    omega
+  · rw [pow2_eq_zpow]; push_cast
+    rw [zpow_neg]; norm_num; ring
+
 end C06
 end Mb
